@@ -7,7 +7,8 @@ CFG = {'streams': [{'name': 'C18',
               'what_fails': 'ParseError::first/all/into_first/into_all or a Display impl differs from the model on a generated Python source '
                             '(verdict_code: 1 all, 2 first, 3 into_all read on another thread, 4 into_first read on another thread, 5 plain display '
                             'text/panic, 6 pretty display text/panic, 7 citation of path:line:col differs, 8 model not Ok, 9 malformed observation, '
-                            '10 display on the other thread differs, 99 oracle assumption violated: a visible ERROR/MISSING node but '
+                            '10 display on the other thread differs, 11 a display of a reported error does not cite path:line:col (judged on the '
+                            'real text, independently of the model), 99 oracle assumption violated: a visible ERROR/MISSING node but '
                             'root.has_error() is false)'}],
  'rule': 'generated Python sources (1-6 top-level statements: assignments, calls, returns, augmented assignments, defs, if/else, for, nested two '
          'deep; non-ASCII identifiers, strings and paths incl. 4-byte characters; 5% CRLF, 15% without final newline; varied spacing) with i mod 7 = '
@@ -20,10 +21,12 @@ CFG = {'streams': [{'name': 'C18',
                 'nodes without a flagged proper ancestor (error takes precedence), never runs out of fuel; first_only returns the head of that list; '
                 'trees without flagged node yield nothing (and only those); plain and pretty display never panic on position data whose byte range '
                 'is ordered and on character boundaries (string slicing is modelled with explicit Panic outcomes), plain display starts with '
-                'path:row+1:col+1:, pretty display contains it when the byte range is non-empty; dec is the decimal numeral. Correspondence: per '
-                'generated tree the model (vm_compute) is compared with the real library on the (kind, preorder id) lists of '
-                'first/all/into_first/into_all (owning bundles are moved to and read on another thread, where displays are recomputed), the complete '
-                'text of display and display_pretty for every reported error (under catch_unwind), and the citation flags computed on the Rust side.',
+                'path:row+1:col+1:, pretty display contains it for every node, zero-width (MISSING) nodes included, for which the exact output (kind '
+                'line + excerpt with the empty column range) is also proved; dec is the decimal numeral. Correspondence: per generated tree the '
+                'model (vm_compute) is compared with the real library on the (kind, preorder id) lists of first/all/into_first/into_all (owning '
+                'bundles are moved to and read on another thread, where displays are recomputed), the complete text of display and display_pretty '
+                'for every reported error (under catch_unwind), and the citation flags computed on the Rust side from the real text (a display that '
+                'does not cite path:line:col is a DIFF, verdict 11, whatever the model says).',
  'assumptions': ['oracle: a visible ERROR or MISSING node implies tree.root_node().has_error() (checked on every generated tree, verdict 99); the '
                  'converse is false for real trees (`pass pass` has a MISSING hidden _newline: has_error() without any flagged visible node) and is '
                  'not assumed',
@@ -34,8 +37,4 @@ CFG = {'streams': [{'name': 'C18',
                  'usize arithmetic (row+1, start+len) does not overflow; built without the term-colors feature',
                  'soundness of the unsafe Send/Sync impls and the lifetime transmute of the owning bundles is only exercised dynamically (move to '
                  'another thread, read there), not proved'],
- 'partial': ["display_pretty_cites_partial: the pretty display cites line and column only when the node's byte range is non-empty. For every MISSING "
-             'node (zero width) ParseErrorDisplayPretty prints just `missing syntax` and an empty line, no position (theorem '
-             "display_pretty_empty_range; observed on the real library, tag pretty_without_position). The property's claim 'plain or pretty ... "
-             "cites the node's line and column' is therefore false for pretty display of MISSING nodes; model and implementation agree on this "
-             'behaviour.']}
+ 'partial': []}
